@@ -1,6 +1,7 @@
 package main
 
 import (
+	"fmt"
 	"go/ast"
 	"go/types"
 	"sort"
@@ -89,6 +90,7 @@ func c11Run(r *Run) {
 		declOfFn[info.Defs[fd.Name]] = fd
 	}
 	n := 0
+	entryCalls := map[ast.Node]bool{}
 	// entry points: every function (or function literal) with parameters (http.ResponseWriter, *http.Request)
 	// that calls a script function (.Call(ctx))
 	check := func(name string, ft *ast.FuncType, body *ast.BlockStmt, pos ast.Node) {
@@ -130,6 +132,7 @@ func c11Run(r *Run) {
 			return
 		}
 		n++
+		entryCalls[call] = true
 		key := name + "#request-context"
 		ctxID, ok := ast.Unparen(call.Args[0]).(*ast.Ident)
 		if !ok {
@@ -137,7 +140,7 @@ func c11Run(r *Run) {
 			return
 		}
 		ctxObj := info.Uses[ctxID]
-		fresh := false
+		fresh, reused := false, false
 		ast.Inspect(body, func(m ast.Node) bool {
 			as, ok := m.(*ast.AssignStmt)
 			if !ok || len(as.Lhs) != 1 || len(as.Rhs) != 1 {
@@ -147,13 +150,22 @@ func c11Run(r *Run) {
 			if !ok || (info.Defs[id] != ctxObj && info.Uses[id] != ctxObj) {
 				return true
 			}
+			created := false
 			if c, ok := ast.Unparen(as.Rhs[0]).(*ast.CallExpr); ok {
 				if se, ok := ast.Unparen(c.Fun).(*ast.SelectorExpr); ok && se.Sel.Name == "CreateContext" {
-					fresh = true
+					created = true
 				}
+			}
+			if created {
+				fresh = true
+			} else {
+				reused = true // some definition takes the context from elsewhere (a pool, a field, a channel)
 			}
 			return true
 		})
+		if reused {
+			fresh = false
+		}
 		// the variable must be declared inside this body (not captured from the enclosing scope)
 		inside := ctxObj != nil && ctxObj.Pos() >= body.Pos() && ctxObj.Pos() <= body.End()
 		// request/response bound into the same context
@@ -213,6 +225,7 @@ func c11Run(r *Run) {
 	if n == 0 {
 		r.fail("no request entry point found in std/net/http")
 	}
+	c11CallFrames(r, hp, entryCalls)
 	c11ProgramFrames(r)
 }
 
@@ -333,5 +346,86 @@ func c11Node(r *Run) {
 		if !bad[tn] {
 			r.ok("node.("+tn+")#stateless-under-evaluation", examined[tn], "evaluation methods write no field of the node")
 		}
+	}
+}
+
+// c11CallFrames: wherever the HTTP binding calls into script code (X.Call(ctx)), the frame is made for
+// that call — a local all of whose definitions are CreateContext calls — or was handed in as a parameter
+// (then the caller is judged). A frame taken from a field, a pool, a channel or a once-initialised slot is
+// shared by every request that reaches the call at the same time.
+func c11CallFrames(r *Run, hp *packages.Package, skip map[ast.Node]bool) {
+	info := hp.TypesInfo
+	for _, fd := range funcDecls(hp) {
+		if fd.Body == nil {
+			continue
+		}
+		params := map[types.Object]bool{}
+		collect := func(ft *ast.FuncType) {
+			if ft.Params == nil {
+				return
+			}
+			for _, f := range ft.Params.List {
+				for _, nm := range f.Names {
+					params[info.Defs[nm]] = true
+				}
+			}
+		}
+		collect(fd.Type)
+		ast.Inspect(fd.Body, func(n ast.Node) bool {
+			if lit, ok := n.(*ast.FuncLit); ok {
+				collect(lit.Type)
+			}
+			return true
+		})
+		k := 0
+		ast.Inspect(fd.Body, func(n ast.Node) bool {
+			c, ok := n.(*ast.CallExpr)
+			if !ok || len(c.Args) != 1 || skip[c] {
+				return true
+			}
+			se, ok := ast.Unparen(c.Fun).(*ast.SelectorExpr)
+			if !ok || se.Sel.Name != "Call" || !isNamed(info.TypeOf(c.Args[0]), modPath+"/data", "Context") {
+				return true
+			}
+			id, ok := ast.Unparen(c.Args[0]).(*ast.Ident)
+			if !ok {
+				return true
+			}
+			o := info.Uses[id]
+			if o == nil || params[o] {
+				return true
+			}
+			defs, created := 0, 0
+			ast.Inspect(fd.Body, func(m ast.Node) bool {
+				as, ok := m.(*ast.AssignStmt)
+				if !ok || len(as.Lhs) != len(as.Rhs) {
+					return true
+				}
+				for i, l := range as.Lhs {
+					lid, ok := l.(*ast.Ident)
+					if !ok || (info.Defs[lid] != o && info.Uses[lid] != o) {
+						continue
+					}
+					defs++
+					if cc, ok := ast.Unparen(as.Rhs[i]).(*ast.CallExpr); ok {
+						if cse, ok := ast.Unparen(cc.Fun).(*ast.SelectorExpr); ok && cse.Sel.Name == "CreateContext" {
+							created++
+						}
+					}
+				}
+				return true
+			})
+			if defs == 0 {
+				return true // captured from an enclosing scope: judged where it is defined
+			}
+			k++
+			key := fmt.Sprintf("%s#call-frame:%s", funcKey(hp, fd), o.Name())
+			if created == defs {
+				r.ok(key, c.Pos(), "the script code runs in a frame created for this call")
+			} else {
+				r.bad(key, c.Pos(), "the script code runs in a frame that is not created for this call (it comes from a field, a pool or a once-initialised slot): requests that reach this call at the same time share its variables")
+			}
+			return true
+		})
 	}
 }
